@@ -229,6 +229,10 @@ def _hexmode(case):
         pel['ph']['eid'] = encode.u32(eid)
         pel['ph']['plid'] = encode.u32(eid)
         pel['ph']['bmc'] = encode.u32(700 + k)
+        if k % 3 == 1:
+            # a long log: what is shown is the whole file, however little of it a mode needs to read
+            pel['secs'].append(dict(genpel.hdr(rng, 'UD'), kind='UD', comp=[0x77, 0x78], sub=9, ver=1,
+                                    payload=genpel.rbytes(rng, rng.choice([4000, 4096, 5000, 9000, 20000]))))
         data = list(encode.encode(pel))
         if rng.random() < .4:
             data += genpel.rbytes(rng, rng.randrange(1, 40))      # bytes behind the last section belong to the file
